@@ -12,7 +12,7 @@ runs on small real projects, so that a behavioural deviation is reported as a VI
 from pyvc.api import custom
 
 _DIRS = ["src", "pkg", "build", "dist", "gen", ".venv", "node_modules", "lib"]
-_FILES = ["a.py", "b.py", "c.py", "build", "d.pyc"]
+_FILES = ["a.py", "b.py", "c.py", "build", "d.pyc", "w.ts", "v.ts", "r.rs"]
 _BLOCK = ("    total = 0\n    for item in items:\n        if item.value > threshold:\n            if item.value > factor:\n"
           "                total += item.value * 3.14159\n        else:\n            total -= item.value / 4242\n"
           "    result = transform(total, mode=\"fast\")\n    return finalize_result(result, items)\n")
@@ -34,13 +34,25 @@ def _tree(rng, depth):
     return t
 
 
+_TS_BODY = ("export class Widget {\n  a(): number { return 4242; }\n  b(): number[] { return Array(15).fill(0); }\n"
+            "  c(x: number, y: number): number {\n    if (x) {\n      if (y) {\n        if (x > y) {\n          return 77;\n"
+            "        }\n      }\n    }\n    return 0;\n  }\n  d(): number { return 15; }\n}\n")
+_RS_BODY = ("pub fn work(x: i32, y: i32) -> i32 {\n    if x > 0 {\n        if y > 0 {\n            if x > y {\n                return 4242;\n"
+            "            }\n        }\n    }\n    15\n}\n")
+# per-language override sections: a file's verdict must not depend on which other languages were linted before it
+_ROOT_CONFIG = ("nesting:\n  max_nesting_depth: 3\n  python:\n    max_nesting_depth: 2\n"
+                "magic-numbers:\n  allowed_numbers: [0, 1]\n  python:\n    allowed_numbers: [0, 1, 4242]\n  typescript:\n    max_small_integer: 20\n"
+                "srp:\n  max_methods: 5\n  python:\n    max_methods: 1\n"
+                "dry:\n  enabled: true\n  min_duplicate_lines: 3\n")
+
+
 def _write(base, t):
     import os
     for nm, sub in t.items():
         p = os.path.join(base, nm)
         if sub is None:
             with open(p, "w", encoding="utf-8") as fh:
-                fh.write(_BODY)
+                fh.write(_TS_BODY if nm.endswith(".ts") else _RS_BODY if nm.endswith(".rs") else _BODY)
         else:
             os.mkdir(p)
             _write(p, sub)
@@ -100,8 +112,7 @@ def entrypoints_bounded(ctx):
             root.mkdir()
             t = _tree(rng, 2)
             _write(str(root), t)
-            (root / ".thailint.yaml").write_text("nesting:\n  max_nesting_depth: 2\ndry:\n  enabled: true\n  min_duplicate_lines: 3\n",
-                                                encoding="utf-8")
+            (root / ".thailint.yaml").write_text(_ROOT_CONFIG, encoding="utf-8")
             clear_ignore_parser_cache()
             for parts in _dirs_of(t):
                 d = root.joinpath(*parts)
@@ -109,8 +120,8 @@ def entrypoints_bounded(ctx):
                 # (1) directory == concatenation of per-file runs
                 a = _key(Orchestrator(project_root=root).lint_directory(d, recursive=True), str(root), True)
                 files = _collect_files_fast(d, True)
-                o2 = Orchestrator(project_root=root)
-                b = _key([v for f in files for v in o2.lint_file(f)], str(root), True)
+                # "each contained file on its own": a FRESH orchestrator per file (no shared state between the files)
+                b = _key([v for f in files for v in Orchestrator(project_root=root).lint_file(f)], str(root), True)
                 cases += 1
                 if a != b:
                     return _refuted(name, cases, "directory run differs from the per-file runs over its collected files",
@@ -144,7 +155,7 @@ def entrypoints_bounded(ctx):
             cases += 1
             if api != cli:
                 return _refuted(name, cases, "with --config FILE / config_file=FILE the two entry points use different configurations",
-                                {"tree": t, "root_config": "nesting.max_nesting_depth: 2", "explicit_config": "magic-numbers only",
+                                {"tree": t, "root_config": "per-language sections for nesting / magic-numbers / srp", "explicit_config": "magic-numbers only",
                                  "api_only": sorted(map(str, (api - cli).keys()))[:6], "cli_only": sorted(map(str, (cli - api).keys()))[:6]})
             shutil.rmtree(str(root), ignore_errors=True)
     except BaseException as e:  # noqa
